@@ -333,7 +333,9 @@ impl<'a> W<'a> {
             }
             19 => {
                 self.fresh += 1;
-                let n = format!("f{}", self.fresh);
+                // now and then a function that takes the name of a variable (statements before it in the same block
+                // still mean the variable)
+                let n = if self.r.chance(1, 3) { (*self.r.pick(&NAMES)).to_string() } else { format!("f{}", self.fresh) };
                 let f = self.function(&n, depth + 1);
                 self.declare(&n);
                 Stmt::Expr(f)
